@@ -48,6 +48,12 @@ def run_case(ctx, inp):
     sd, info = rev_impl.load(inp["revs"])
     if sd is None:
         return {"impl": info}, None
+    if inp.get("ctxopts") is not None:
+        from .. import rev_ctx
+
+        impl = rev_ctx.replay_case(inp)
+        model = ctx.drv.ask1({"op": "rev.cmd", **{k: v for k, v in inp.items() if k not in ("prior", "ctxopts")}, "normOrder": info["normOrder"]})
+        return {"impl": rev_corr.canon_cmd(impl), "model": rev_corr.canon_cmd(model)}, impl
     vdb = rev_impl.VersionDb()
     try:
         # commands that ran earlier on the same ScriptDirectory object
